@@ -66,11 +66,14 @@ fn markup(n: &SyntaxNode, cx: Cx, out: &mut Vec<String>) {
     let mut was_stmt = false;
     for c in n.children() {
         let k = c.kind();
-        let after_stmt = was_stmt;
-        was_stmt = is_stmt(k);
-        if k == K::Space && after_stmt {
-            // ast::Markup::exprs() ignores a space directly after a statement
+        // ast::Markup::exprs() ignores a space directly after a statement. Comment placement is
+        // layout, so comments between the statement and the space are transparent here: every
+        // space in the run of blanks and comments that follows a statement is dropped.
+        if k == K::Space && was_stmt {
             continue;
+        }
+        if !(syn::is_comment(k) && was_stmt) {
+            was_stmt = is_stmt(k);
         }
         let mut v = vec![];
         node(c, ccx, &mut v);
@@ -181,7 +184,8 @@ fn node(n: &SyntaxNode, cx: Cx, out: &mut Vec<String>) {
     let k = n.kind();
     let pk = cx.parent;
     match k {
-        K::LineComment | K::BlockComment => {}
+        // trivia: never cast to an expression
+        K::LineComment | K::BlockComment | K::Shebang => {}
         K::Space => {
             if matches!(pk, Some(K::Markup | K::Math)) {
                 out.push(SP.into());
